@@ -187,10 +187,21 @@ theorem exec_usercall {G : GCtx} (ok : G.OK) (fuel : Nat) (hcs : CallSpec G fuel
     (hsz : gs'.size ≤ G.S pi) (hnl : pi.p.locals.length ≤ gs.offset) (hci : ConstsIn (KOf G pi sp dep hi) gs') :
     match X.callUser fuel G.xc pj.p (ws.map Val.int) s with
     | .ok res s' => ∃ a' b' mem', Steps G.env (cfg i a b mem) st.io (cfg (i + (lowerCode G.cg code).length) a' b' mem') s'.io ∧
-        Rep (KOf G pi sp dep hi) s' mem' ∧ (pj.p.isFunc = true → ∀ w, res = some w → a' = w)
+        Rep (KOf G pi sp dep hi) s' mem' ∧ (pj.p.isFunc = true → ∀ w, res = some w → a' = w) ∧
+        FrmC (KOf G pi sp dep hi) gs.offset (G.S pi) mem mem'
     | .exit cd s' => ∃ c, Steps G.env (cfg i a b mem) st.io c s'.io ∧ Exit G.env c s'.io cd
     | .undef _ => True := by
   have wf := ok.wfs pi hpi sp dep hi hlo hspv
+  have hfrm : ∀ (q : Nat) (mem1 mem2 : Mem), q + gs.offset ≤ G.S pi → (∀ x, sp + q ≤ x → mem2.read x = mem1.read x) →
+      FrmC (KOf G pi sp dep hi) gs.offset (G.S pi) mem1 mem2 := by
+    intro q mem1 mem2 hq hk a hsp hne
+    have hsp' : sp ≤ a := hsp
+    by_cases ha : sp + q ≤ a
+    · exact hk a ha
+    · exfalso
+      apply hne (G.S pi - 1 - (a - sp)) (by omega) (by omega)
+      show a = sp + G.S pi - 1 - (G.S pi - 1 - (a - sp))
+      omega
   obtain ⟨c1, gs1, c2, gs2, h1, h2, hcode, hgs'⟩ := callSeq_inv _ _ _ _ _ _ _ _ hg
   obtain ⟨hnc, hcnt⟩ := genCallActuals_noCall (G.ctxOf pi) (optArgsOf (fun _ => none) es) { gs with size := gs.offset }
     (optArgsOf_noCall _ es hp)
@@ -272,7 +283,8 @@ theorem exec_usercall {G : GCtx} (ok : G.OK) (fuel : Nat) (hcs : CallSpec G fuel
         rw [show IAm.W ((1 : Nat) : Int) = 1 from W_one] at this
         rw [this, ld_ofNat _ _ hs1lt]
       have sLdai := Step.ldai (env := G.env) (cfg (i + (lowerCode G.cg c2).length + 2 + 1 + 1) (mem2.read 1) b2 mem2) s'.io 1 _ t4 l3
-      refine ⟨mem2.read (sp + 1), b2, mem2, ?_, rep2, fun _ w hw => hres w hw⟩
+      refine ⟨mem2.read (sp + 1), b2, mem2, ?_, rep2, fun _ w hw => hres w hw,
+        frm1.trans (hfrm 2 mem1 mem2 (by omega) (fun x hx => hkeep x (by omega) (by omega)))⟩
       have : i + ((lowerCode G.cg c2).length + [Dir.ref 0x5 (lab gs2.labelCount) true, .ref 0x9 pj.p.name true,
           .label .plain (lab gs2.labelCount), .imm 0x0 1, .imm 0x6 1].length)
           = i + (lowerCode G.cg c2).length + 2 + 1 + 1 + 1 := by simp; omega
@@ -318,7 +330,11 @@ theorem exec_usercall {G : GCtx} (ok : G.OK) (fuel : Nat) (hcs : CallSpec G fuel
           · subst h1; exact hsame hf
           · exact hkeep x (by omega) h1) (by omega)
       have sLab := Step.label (env := G.env) (cfg (i + (lowerCode G.cg c2).length + 2) a2 b2 mem2) s'.io _ _ t2
-      refine ⟨a2, b2, mem2, ?_, rep2, fun h => by simp at h⟩
+      refine ⟨a2, b2, mem2, ?_, rep2, fun h => by simp at h,
+        frm1.trans (hfrm 1 mem1 mem2 (by omega) (fun x hx => by
+          by_cases h1 : x = sp + 1
+          · subst h1; exact hsame hf
+          · exact hkeep x (by omega) h1))⟩
       have : i + ((lowerCode G.cg c2).length + [Dir.ref 0x5 (lab gs2.labelCount) true, .ref 0x9 pj.p.name true,
           .label .plain (lab gs2.labelCount)].length)
           = i + (lowerCode G.cg c2).length + 2 + 1 := by simp; omega
